@@ -34,6 +34,7 @@ Inductive sexp : Type :=
 | SComma | SSemicolon.
 
 Definition is_send (e : sexp) : bool := match e with SEnd => true | _ => false end.
+Definition is_comment (e : sexp) : bool := match e with SComment _ _ => true | _ => false end.
 
 Definition str_quote : list Z := [113; 117; 111; 116; 101].
 Definition str_syntaxQuote : list Z := [115; 121; 110; 116; 97; 120; 81; 117; 111; 116; 101].
@@ -276,7 +277,7 @@ Fixpoint pexpr (f : nat) (acc : list sexp) (top : bool) (q : queue) (k : sexp ->
     look (if top then false else strict) acc q (fun _ => k SEnd q) (fun q0 =>
     let tok := tok_at q0 0 in
     let q1 := q_tail q0 in
-    let sugar name := pexpr f' acc false q1 (fun e q2 => k (list2 (sym name) e) q2) in
+    let sugar name := pprefix f' acc q1 name k in
     match t_kind tok with
     | TLParen => plist f' acc q1 TRParen k
     | TLSquare => parray f' acc q1 [] k
@@ -342,6 +343,16 @@ Fixpoint pexpr (f : nat) (acc : list sexp) (top : bool) (q : queue) (k : sexp ->
     | TSemicolon => k SSemicolon q1
     | _ => OErr acc     (* Invalid syntax, don't know what to do with ... *)
     end)
+  end
+
+(* parser.go: parsePrefixOperand: the form a reader prefix applies to; comments (expressions to the parser)
+   between the prefix and its form are skipped *)
+with pprefix (f : nat) (acc : list sexp) (q : queue) (name : list Z) (k : sexp -> queue -> outcome) {struct f} : outcome :=
+  match f with
+  | O => OFuel
+  | S f' =>
+      pexpr f' acc false q (fun e q2 =>
+        if is_comment e then pprefix f' acc q2 name k else k (list2 (sym name) e) q2)
   end
 
 (* parser.go: ParseList *)
@@ -469,7 +480,8 @@ Definition observe (o : outcome) : status * list sexp :=
   end.
 
 (* ---- an independent reading of "unfinished prefix": open bracket, string, raw string or
-   block comment, or a reader prefix (% ^ ~ ~@) whose datum has not started.  A plain scanner
+   block comment, or a reader prefix (% ^ ~ ~@) whose datum has not started (comments between the
+   prefix and its datum do not count: the parser skips them).  A plain scanner
    over the runes; it shares nothing with the lexer model. ---- *)
 
 Inductive smode : Type := MCode | MStr | MStrEsc | MRaw | MLine | MBlock | MBlockStar | MSlash | MRune | MRuneEsc | MTilde.
@@ -481,7 +493,7 @@ Definition scan_code (depth : Z) (pending : bool) (c : Z) : sstate :=
   if c =? 34 then (MStr, depth, false)
   else if c =? 96 then (MRaw, depth, false)
   else if c =? 39 then (MRune, depth, false)
-  else if c =? 47 then (MSlash, depth, false)
+  else if c =? 47 then (MSlash, depth, pending)
   else if (c =? 40) || (c =? 91) || (c =? 123) then (MCode, depth + 1, false)
   else if (c =? 41) || (c =? 93) || (c =? 125) then (MCode, depth - 1, false)
   else if (c =? 37) || (c =? 94) then (MCode, depth, true)
@@ -493,13 +505,13 @@ Definition scan_step (st : sstate) (c : Z) : sstate :=
   let '(m, depth, pending) := st in
   match m with
   | MCode => scan_code depth pending c
-  | MSlash => if c =? 47 then (MLine, depth, false) else if c =? 42 then (MBlock, depth, false) else scan_code depth false c
+  | MSlash => if c =? 47 then (MLine, depth, pending) else if c =? 42 then (MBlock, depth, pending) else scan_code depth false c
   | MStr => if c =? 92 then (MStrEsc, depth, false) else if c =? 34 then (MCode, depth, false) else (MStr, depth, false)
   | MStrEsc => (MStr, depth, false)
   | MRaw => if c =? 96 then (MCode, depth, false) else (MRaw, depth, false)
-  | MLine => if c =? 10 then (MCode, depth, false) else (MLine, depth, false)
-  | MBlock => if c =? 42 then (MBlockStar, depth, false) else (MBlock, depth, false)
-  | MBlockStar => if c =? 47 then (MCode, depth, false) else if c =? 42 then (MBlockStar, depth, false) else (MBlock, depth, false)
+  | MLine => if c =? 10 then (MCode, depth, pending) else (MLine, depth, pending)
+  | MBlock => if c =? 42 then (MBlockStar, depth, pending) else (MBlock, depth, pending)
+  | MBlockStar => if c =? 47 then (MCode, depth, pending) else if c =? 42 then (MBlockStar, depth, pending) else (MBlock, depth, pending)
   | MRune => if c =? 92 then (MRuneEsc, depth, false) else if c =? 39 then (MCode, depth, false) else (MRune, depth, false)
   | MRuneEsc => (MRune, depth, false)
   | MTilde => if c =? 64 then (MCode, depth, true) else scan_code depth true c   (* ~@ or ~ form *)
